@@ -14,6 +14,7 @@ import AnySyncModel.Driver.Space
 import AnySyncModel.Driver.Auth
 import AnySyncModel.Driver.Handshake
 import AnySyncModel.Driver.Bytes
+import AnySyncModel.Driver.Store
 /-!
 `modeld <area>`: reads one operation per line on stdin, prints exactly one line per operation.
 Stateless areas expose `step : String → String`; stateful areas expose
@@ -56,4 +57,5 @@ def main (args : List String) : IO UInt32 := do
   | ["auth"] => loopState stdin stdout Driver.Auth.step Driver.Auth.init; return 0
   | ["handshake"] => loopPure stdin stdout Driver.Handshake.step; return 0
   | ["bytes"] => loopPure stdin stdout Driver.Bytes.step; return 0
+  | ["store"] => loopState stdin stdout Driver.Store.step Driver.Store.init; return 0
   | _ => IO.eprintln s!"modeld: unknown area {args}"; return 2
